@@ -3,7 +3,8 @@ from plib import *
 from props.vcommon import *
 from props.builder import Prog
 
-LEAN_TARGETS = ["Plonk.Props.C02", "Plonk.Props.WidgetTie"]
+LEAN_TARGETS = ["Plonk.Props.C02", "Plonk.Props.WidgetTie", "Plonk.Props.G1Law"]
+EXTRA_AUDITS = ['G1Law']
 ASSUMPTIONS = ["soundness is relative: KZG knowledge-soundness, the algebraic group model and the Fiat-Shamir heuristic are assumed; "
                "what is proved is the deterministic algebraic core with explicit bad-challenge sets",
                "pairing decided in the trapdoor view"]
@@ -55,6 +56,7 @@ def run(ctx, broken):
     cs = circuits(rng, 0)
     entries = ["fs 706c6f6e6b || %s" % src for (_, src) in cs[:3 if ctx.tier == "quick" else len(cs)]]
     lines += r.emit("emitv", entries, ctx.seed + 7, 0)
+    lines += shifted_openings(ctx, lines)
     r.run(lines)
     st = r.report()
     st["forced_proofs"] = sum(1 for l in lines if "forced" in l.split(" ")[0])
